@@ -39,6 +39,12 @@ def _split_args(s):
 def array(s):
     """-> (default, {index: value}) or None"""
     s = " ".join(s.split())
+    if s.startswith("ARRAY{"):
+        m = {}
+        for part in s[6:-1].split(","):
+            i, v = part.split(":", 1)
+            m[int(i)] = num(v)
+        return (0, m)
     if s.startswith("K("):
         args = _split_args(s[2:-1])
         return (num(args[-1]), {})
